@@ -339,6 +339,16 @@ func ledgerChainsModes(c *fw.Ctx, modes []string, salt int64, nChains, blocks in
 }
 
 func runC01(c *fw.Ctx) {
+	c01GenOps, c01GenOuts = nil, nil
+	defer func() {
+		if c.Model != nil && len(c01GenOps) > 0 {
+			c.Res.CountN("genrun:validateMinerPayouts", len(c01GenOps))
+			for _, o := range c01GenOuts {
+				c.Res.Count("genrun:validateMinerPayouts:" + o)
+			}
+			c.Compare(c01GenOps, c01GenOuts)
+		}
+	}()
 	c.Res.Rule = "random valid chains (modes v1-only / mixed / v2-only / legacy-window; random hardfork heights, intervals, maturity delays) built block by block from payments, siafund transfers+claims, v1/v2 contract formation, revision, storage proof, expiry, renewal, ephemeral spends, foundation updates; after EVERY block: Σ unspent siacoin outputs + value locked in v1/v2 contracts + unclaimed tax pool + v2 forfeits == genesis + scheduled subsidies, Σ siafunds == 10000, every claim == floor((pool−claimStart)/10000)·value, payouts == reward + fees (oracle from the statement, independent store); each block abstracted and validated+applied by the Lean ledger model, verdict and complete diff dump compared. A block is non-trivial when it has at least one transaction."
 	var o *supplyOracle
 	ledgerChains(c, c.Budget(40, 2000), c.Budget(45, 70),
@@ -366,7 +376,39 @@ func runC01(c *fw.Ctx) {
 
 // c01PayoutMutants: "miner fees reappear exactly in the miner payout" from the rejecting side — the same block with a
 // payout that leaves out the v1 fees, the v2 fees, one hasting, or adds one hasting must be rejected.
+// op lines for the regenerated validateMinerPayouts (see genrun.go), compared at the end of runC01
+var c01GenOps, c01GenOuts []string
+
 func c01PayoutMutants(c *fw.Ctx, s *chain.Sim, p chain.BlockPlan, rp blockReplay) {
+	if op, out, ok := genrunPayouts(s.Tip, p.Block); ok {
+		c01GenOps, c01GenOuts = append(c01GenOps, op), append(c01GenOuts, out)
+	}
+	// extreme payout lists for the regenerated loops: none, zero-valued, doubled, overflowing
+	for k := 0; k < 7; k++ {
+		mb := chain.DeepCopyBlock(p.Block)
+		switch k {
+		case 4:
+			mb.Transactions = append(mb.Transactions, types.Transaction{MinerFees: []types.Currency{types.NewCurrency64(5), types.ZeroCurrency}})
+		case 5:
+			mb.Transactions = append(mb.Transactions, types.Transaction{MinerFees: []types.Currency{types.MaxCurrency, types.MaxCurrency}})
+		case 6:
+			if mb.V2 == nil {
+				continue
+			}
+			mb.V2.Transactions = append(mb.V2.Transactions, types.V2Transaction{MinerFee: types.MaxCurrency}, types.V2Transaction{MinerFee: types.MaxCurrency})
+		case 0:
+			mb.MinerPayouts = nil
+		case 1:
+			mb.MinerPayouts = append(mb.MinerPayouts, types.SiacoinOutput{})
+		case 2:
+			mb.MinerPayouts = append(mb.MinerPayouts, mb.MinerPayouts...)
+		case 3:
+			mb.MinerPayouts = append(mb.MinerPayouts, types.SiacoinOutput{Value: types.MaxCurrency})
+		}
+		if op, out, ok := genrunPayouts(s.Tip, mb); ok {
+			c01GenOps, c01GenOuts = append(c01GenOps, op), append(c01GenOuts, out)
+		}
+	}
 	res := c.Res
 	var v1fees, v2fees types.Currency
 	for _, t := range p.Block.Transactions {
@@ -392,6 +434,9 @@ func c01PayoutMutants(c *fw.Ctx, s *chain.Sim, p chain.BlockPlan, rp blockReplay
 		mb.Nonce = 0
 		for nf := s.Tip.NonceFactor(); mb.ID().CmpWork(s.Tip.PoWTarget()) < 0; {
 			mb.Nonce += nf
+		}
+		if op, out, ok := genrunPayouts(s.Tip, mb); ok {
+			c01GenOps, c01GenOuts = append(c01GenOps, op), append(c01GenOuts, out)
 		}
 		var err error
 		panicked, msg := fw.Recover(func() { err = consensus.ValidateBlock(s.Tip, mb, chain.CopySupp(p.Supp)) })
